@@ -75,6 +75,57 @@ macro_rules! probe {
 }
 probe!(P, PErr, 0);
 probe!(Q, QErr, 0x5a5a_0000);
+probe!(R, RErr, 0x00c3_3c00);
+/// `R` also has an INHERENT associated function of the same name and signature as `FromStr::from_str` that does the
+/// opposite (Ok <-> Err, other salt). "Parses exactly as its field type does" refers to the field type's `FromStr` impl:
+/// generated code that names the function as `<R>::from_str` / `R::from_str` is resolved to this one instead.
+impl R {
+    pub fn from_str(s: &str) -> Result<R, RErr> {
+        let (ptr, len) = (s.as_ptr(), s.len());
+        let salt = SALT.load(Relaxed) ^ 0x7777_7777;
+        if (ACCEPT.load(Relaxed) >> ((len as u32) & 31)) & 1 == 0 { Ok(R { ptr, len, salt }) }
+        else { Err(RErr { ptr, len, salt: !salt }) }
+    }
+}
+
+// ---------------------------------------------------------------------------------------------------------------
+// Fixed-size byte sink for the rendered text of an error (no allocation, no format!).
+// ---------------------------------------------------------------------------------------------------------------
+pub struct Sink { pub buf: [u8; 96], pub len: usize, pub overflow: bool }
+impl Sink { pub fn new() -> Sink { Sink { buf: [0u8; 96], len: 0, overflow: false } } }
+impl core::fmt::Write for Sink {
+    fn write_str(&mut self, s: &str) -> core::fmt::Result {
+        let b = s.as_bytes();
+        let mut i = 0;
+        while i < b.len() {
+            if self.len < 96 { self.buf[self.len] = b[i]; self.len += 1; } else { self.overflow = true; }
+            i += 1;
+        }
+        Ok(())
+    }
+}
+/// does `hay` contain `needle` as a contiguous run of bytes
+pub fn contains_bytes(hay: &[u8], needle: &[u8]) -> bool {
+    if needle.len() > hay.len() { return false; }
+    let mut i = 0;
+    while i + needle.len() <= hay.len() {
+        let mut j = 0;
+        let mut same = true;
+        while j < needle.len() { if hay[i + j] != needle[j] { same = false; } j += 1; }
+        if same { return true; }
+        i += 1;
+    }
+    false
+}
+/// The text `Display` renders for `e` names `name`: it contains the name between backquotes.
+pub fn rendered_text_names(e: &FromStrError, name: &str) -> bool {
+    use core::fmt::Write as _;
+    let mut out = Sink::new();
+    if write!(out, "{}", e).is_err() || out.overflow { return false; }
+    let mut quoted = Sink::new();
+    let _ = quoted.write_str("`"); let _ = quoted.write_str(name); let _ = quoted.write_str("`");
+    contains_bytes(&out.buf[..out.len], &quoted.buf[..quoted.len])
+}
 
 // ---------------------------------------------------------------------------------------------------------------
 // Model of `str::to_lowercase` used ONLY as a #[kani::stub] in the bounded enum harnesses.
@@ -137,6 +188,11 @@ def newtypes(tier):
         "pub struct Inner(pub P);\n#[derive(FromStr)]\npub struct S(pub Inner);", "S", "&t.0.0")
     add("n_raw_field_name", "struct S { r#type: P }", "pub struct S { pub r#type: P }", "S", "&t.r#type")
     # concrete std field types: the field type's own from_str is the oracle; content matters => bounded
+    # field type with an inherent `from_str` that disagrees with its FromStr impl: the trait impl is the reference
+    add("n_inherent_from_str_tuple", "struct S(R);  where R has `impl FromStr for R` AND an inherent `R::from_str` that does the opposite",
+        "pub struct S(pub R);", "S", "&t.0", f="R", ferr="RErr")
+    add("n_inherent_from_str_named", "struct S { f: R }  where R has `impl FromStr for R` AND an inherent `R::from_str` that does the opposite",
+        "pub struct S { pub f: R }", "S", "&t.f", f="R", ferr="RErr")
     add("n_bool", "struct S(bool);", "pub struct S(pub bool);", "S", "&t.0", f="bool", ferr="core::str::ParseBoolError",
         bound=6, buf="any_ascii_8")
     if tier == "thorough":
@@ -237,8 +293,10 @@ def parse_variant(decl):
 def enums(tier, seed):
     E = []
 
-    def add(key, title_vars, L=8, attrs=(), name="En", symbolic=True):
-        E.append(dict(key=key, variants=title_vars, L=L, attrs=list(attrs), name=name, symbolic=symbolic))
+    def add(key, title_vars, L=8, attrs=(), name="En", symbolic=True, text=None):
+        # text: also check the rendered (Display) text of the error; quick: selected programs, thorough: every program
+        E.append(dict(key=key, variants=title_vars, L=L, attrs=list(attrs), name=name, symbolic=symbolic,
+                      text=(tier == "thorough") if text is None else text))
 
     # the program of the reproduced defect: the name of `r#fn` is `fn`
     add("e_raw_fn_foo", ["r#fn", "Foo"])
@@ -246,8 +304,17 @@ def enums(tier, seed):
     add("e_raw_type_collide", ["r#type", "Type", "Foo"])
     # DESIGN's case-collision enum, the repo's own test enum
     add("e_collide_foo_bar_ba", ["Foo", "Bar", "Ba", "BAR"])
-    add("e_repo_test_enum", ["Foo", "Bar", "Baz", "BaZ"], name="EnumNoFields")
+    add("e_repo_test_enum", ["Foo", "Bar", "Baz", "BaZ"], name="EnumNoFields", text=True)
     add("e_group_of_four", ["ab", "Ab", "aB", "AB", "C"])
+    # odd-sized groups (a stale "seen once / seen twice" toggle re-classifies the 3rd, 5th member as unique), in several
+    # declaration orders: all-lower-case member last / first / in the middle, members interleaved with other variants
+    add("e_group_of_three_lower_last", ["Abc", "ABC", "abc", "Other"])
+    add("e_group_of_three_lower_first", ["abc", "Other", "Abc", "ABC"])
+    add("e_group_of_five", ["aBc", "abc", "Z", "ABC", "Abc", "abC"])
+    # enum names that begin with lower-case `r` (the rendered error text must still name them)
+    add("e_name_rgb", ["Red", "Green"], name="rgb", text=True)
+    add("e_name_rrule", ["Daily", "Weekly"], name="rrule", text=True)
+    add("e_name_r", ["A"], name="r", text=True)
     add("e_prefixes_unique", ["A", "Ab", "Abc", "Abcd"])
     add("e_ok_err_none", ["Ok", "Err", "None", "Some"], name="EnumWithErr")
     add("e_single", ["Only"])
@@ -258,6 +325,7 @@ def enums(tier, seed):
     # catches generated code that lower-cases differently from the macro, e.g. to_ascii_lowercase)
     add("e_unicode", ["Ärger", "Foo", "Ünique", "ÜNIQUE"], symbolic=False)
     if tier == "thorough":
+        add("e_two_odd_groups", ["Xy", "Abc", "xY", "ABC", "XY", "abc", "xy", "AbC", "aBC"])
         add("e_raw_keywords", ["r#fn", "r#type", "r#match", "r#move", "r#async", "Plain"], L=16)
         add("e_raw_case_group", ["r#match", "Match", "MATCH", "r#loop"], L=16)
         add("e_discriminants", ["A = 1", "Bb = 5", "bB"], attrs=["#[repr(u8)]"])
@@ -276,7 +344,7 @@ def enums(tier, seed):
             vs = []
             for w in words:
                 pats = set()
-                for _ in range(rnd.randint(1, 3)):
+                for _ in range(rnd.randint(1, 5)):
                     pats.add("".join(c.upper() if rnd.random() < 0.5 else c for c in w))
                 vs += sorted(pats)
             vs = [v for v in vs if v != "_"]
@@ -406,6 +474,20 @@ def enum_program(e, with_control):
     }
 """
         hs.append(Harness("ob_case_none", "an enum without variants rejects \"\" and \"x\" naming the enum (real str::to_lowercase)", fn=fn))
+    if e["text"]:
+        # "Invalid `" + name + "` string representation": write_str pieces and the byte search run over <= 32 + |name| bytes
+        body += r"""
+    /// the rendered text of the rejection names the enum (between backquotes); `?` cannot occur in a variant name
+    #[kani::proof]
+    #[kani::unwind(%(uw)d)]
+    fn ob_error_text() {
+        let r = <Ty as FromStr>::from_str("?");
+        assert!(matches!(&r, Err(e) if rendered_text_names(e, %(ename)s)), "Display of the error names the enum (input \"?\")");
+    }
+""" % dict(uw=32 + len(unraw(name)) + 8, ename=lit(unraw(name)))
+        hs.append(Harness("ob_error_text", "\"?\".parse::<%s>() is Err(e) and e's Display text contains `%s` in backquotes "
+                          "(written through a fixed 96-byte sink; real str::to_lowercase)" % (name, unraw(name)),
+                          fn=fn + ", <FromStrError as Display>::fmt (src/str.rs)"))
     src = r'''
 use crate::common::*;
 
@@ -447,7 +529,8 @@ def family(tier, seed):
         functions_under_contract=[
             "generated <S as FromStr>::from_str for each single-field struct of the family (impl/src/from_str.rs struct_from)",
             "generated <En as FromStr>::from_str for each field-less enum of the family (impl/src/from_str.rs enum_from)",
-            "derive_more::FromStrError::new + its PartialEq (src/str.rs)"],
+            "derive_more::FromStrError::new + its PartialEq (src/str.rs)",
+            "<derive_more::FromStrError as Display>::fmt (src/str.rs): the rendered text contains the enum's name between backquotes"],
         trusted_base=[
             "bounded enum harnesses only: #[kani::stub(str::to_lowercase, ascii_lower_model)] -- a fixed-capacity byte-wise ASCII model "
             "replaces std's to_lowercase in the generated code (the post-condition does not use it)",
